@@ -251,11 +251,11 @@ theorem evR_render (it : Item) (h : it.WF) : evR it.render = evOf it := by
     have hk : trim (ind ++ key ++ ws1) = key := by
       apply trim_margins ind key ws1 (blank_isSpace hind) (blank_isSpace hws1)
       · intro c hc; exact keyStart_not_space (hkey.2.2.2.2.1 c hc).1
-      · intro c hc; exact not_white_isSpace (hkey.2.2.2.2.2 c hc)
+      · intro c hc; exact not_white_isSpace (hkey.2.2.2.2.2.1 c hc)
     have hv : trim (ws2 ++ val ++ ws3) = val := by
       apply trim_margins ws2 val ws3 (blank_isSpace hws2) (blank_isSpace hws3)
       · intro c hc; exact not_white_isSpace (hval.2.1 c hc)
-      · intro c hc; exact not_white_isSpace (hval.2.2 c hc)
+      · intro c hc; exact not_white_isSpace (hval.2.2.1 c hc)
     rw [hk, hv, slashToBackslash_id key hkey.2.2.2.1]
   | comment ws m t =>
     obtain ⟨hws, hm, _, _⟩ := h
@@ -373,7 +373,7 @@ theorem render_lineOK (it : Item) (h : it.WF) : LineOK it.render := by
   | header n =>
     apply lineOK_of
     · simp only [Item.render, List.mem_append, List.mem_singleton, not_or]
-      exact ⟨⟨by decide, h.2⟩, by decide⟩
+      exact ⟨⟨by decide, h.2.1⟩, by decide⟩
     · simp only [Item.render]
       intro c hc
       rw [List.getLast?_append] at hc
@@ -386,10 +386,10 @@ theorem render_lineOK (it : Item) (h : it.WF) : LineOK it.render := by
       exact ⟨⟨⟨⟨⟨⟨blank_noLF hind, hkey.2.2.1⟩, blank_noLF hws1⟩, by decide⟩, blank_noLF hws2⟩, hval.1⟩, blank_noLF hws3⟩
     · simp only [Item.render]
       exact noCRLast_append (noCRLast_append (noCRLast_append (noCRLast_append (noCRLast_append (noCRLast_append
-        (noCRLast_blank hind) (noCRLast_notWhite hkey.2.2.2.2.2)) (noCRLast_blank hws1)) (noCRLast_of_all (by simp)))
-        (noCRLast_blank hws2)) (noCRLast_notWhite hval.2.2)) (noCRLast_blank hws3)
+        (noCRLast_blank hind) (noCRLast_notWhite hkey.2.2.2.2.2.1)) (noCRLast_blank hws1)) (noCRLast_of_all (by simp)))
+        (noCRLast_blank hws2)) (noCRLast_notWhite hval.2.2.1)) (noCRLast_blank hws3)
   | comment ws m t =>
-    obtain ⟨hws, hm, ht, htl⟩ := h
+    obtain ⟨hws, hm, ht, htl, _⟩ := h
     apply lineOK_of
     · simp only [Item.render, List.mem_append, List.mem_singleton, not_or]
       refine ⟨⟨blank_noLF hws, ?_⟩, ht⟩
